@@ -1135,9 +1135,15 @@ func TestCorr(t *testing.T) {
 		}
 		var wrapper struct {
 			History *histSpec `json:"history"`
+			Input   *struct {
+				History *histSpec `json:"history"`
+			} `json:"input"`
 		}
-		if err := json.Unmarshal(bz, &wrapper); err != nil || wrapper.History == nil {
-			t.Fatalf("replay %s: %v", rp, err)
+		if err := json.Unmarshal(bz, &wrapper); err == nil && wrapper.History == nil && wrapper.Input != nil {
+			wrapper.History = wrapper.Input.History
+		}
+		if wrapper.History == nil {
+			t.Fatalf("replay %s: no history in file", rp)
 		}
 		res, err := runHistory(run, wrapper.History, "replay")
 		if err != nil {
